@@ -1,0 +1,39 @@
+//go:build verif
+
+package encoder
+
+// Verification hooks (build tag `verif` only): re-export unexported functions and tables of the
+// low-level Data Matrix encoder for the /verif correspondence harness (property C08).
+// Nothing here changes behaviour; without the tag the file is not compiled.
+
+func VerifRandomize253State(codewordPosition int) byte { return randomize253State(codewordPosition) }
+
+func VerifBase256Randomize255State(ch byte, codewordPosition int) byte {
+	return base256Randomize255State(ch, codewordPosition)
+}
+
+func VerifCreateECCBlock(codewords []byte, numECWords int) ([]byte, error) {
+	return createECCBlock(codewords, numECWords)
+}
+
+// VerifGFTables returns copies of the log / antilog tables computed in init().
+func VerifGFTables() (lg []int, alg []int) {
+	return append([]int(nil), log...), append([]int(nil), alog...)
+}
+
+// VerifFactors returns copies of factorSets / factors.
+func VerifFactors() ([]int, [][]int) {
+	fs := make([][]int, len(factors))
+	for i := range factors {
+		fs[i] = append([]int(nil), factors[i]...)
+	}
+	return append([]int(nil), factorSets...), fs
+}
+
+// VerifSymbols returns the symbol table in lookup order.
+func VerifSymbols() []*SymbolInfo { return append([]*SymbolInfo(nil), symbols...) }
+
+func (this *SymbolInfo) VerifIsRectangular() bool    { return this.rectangular }
+func (this *SymbolInfo) VerifDataRegions() int       { return this.dataRegions }
+func (this *SymbolInfo) VerifHorizontalRegions() int { return this.getHorizontalDataRegions() }
+func (this *SymbolInfo) VerifVerticalRegions() int   { return this.getVerticalDataRegions() }
